@@ -701,7 +701,7 @@ Proof. intros n. unfold int_lval. destruct (n <? two63); [reflexivity|]. destruc
 
 (* FormatLiteral of an integer literal with value n *)
 Lemma format_int_lval : forall n,
-  format_literal (int_lval n) =
+  format_literal int_to_float (int_lval n) =
   if n <? p64 then s_UInt64 ++ dec n else s_Float64 ++ canon_float (int_to_float n).
 Proof.
   intros n. unfold int_lval. change p64 with two64.
@@ -732,16 +732,19 @@ Proof.
       rewrite format_float_canon by (apply fneg_ok, int_to_float_ok). reflexivity.
 Qed.
 
-(* inside arrays and tuples the code agrees with the property for n <= 2^63 and for n >= 2^64 *)
-Lemma nested_neg_int : forall n, (n <=? p63) || (p64 <=? n) = true ->
-  array_neg_elem (int_lval n) = canon_neg n /\ tuple_neg_elem (int_lval n) = canon_neg n.
+(* inside arrays and tuples: the same text as at the top level, for every n *)
+Lemma nested_neg_int : forall n,
+  array_neg_elem int_to_float (int_lval n) = canon_neg n /\ tuple_neg_elem int_to_float (int_lval n) = canon_neg n.
 Proof.
-  intros n Hn. unfold int_lval, canon_neg. change p63 with two63 in *. change p64 with two64 in *.
+  intros n. unfold int_lval, canon_neg. change p63 with two63 in *.
   destruct (n <? two63) eqn:Q1.
   - cbn [array_neg_elem tuple_neg_elem]. destruct (n =? 0); [split; reflexivity|].
     destruct (n <=? two63) eqn:Q2; [split; reflexivity|unfold two63 in *; lia].
   - destruct (n <? two64) eqn:Q2.
-    + assert (n = two63) by (unfold two63, two64 in *; lia). subst n. split; reflexivity.
+    + cbn [array_neg_elem tuple_neg_elem].
+      destruct (n =? 0) eqn:Q0; [apply N.eqb_eq in Q0; unfold two63 in *; lia|].
+      destruct (n <=? two63); [split; reflexivity|].
+      rewrite format_float_canon by (apply fneg_ok, int_to_float_ok). split; reflexivity.
     + cbn [array_neg_elem tuple_neg_elem].
       destruct (n =? 0) eqn:Q0; [apply N.eqb_eq in Q0; unfold two63 in *; lia|].
       destruct (n <=? two63) eqn:Q3; [unfold two63, two64 in *; lia|].
@@ -764,7 +767,7 @@ Fixpoint ast (t : cval) : lexpr :=
 Definition is_scalar (t : cval) : bool := match t with CArr _ | CTup _ => false | _ => true end.
 
 (* a scalar at the top level *)
-Lemma scalar_top : forall t, scalar_ok parse_float false t = true ->
+Lemma scalar_top : forall t, scalar_ok parse_float t = true ->
   explain_top parse_float int_to_float (ast t) = OLit (canon t).
 Proof.
   intros t H. destruct t as [n|n|n|n|neg text|v|l|l]; cbn [scalar_ok] in H; try discriminate.
@@ -796,15 +799,16 @@ Definition elem_simple (e : lexpr) : bool :=
   | ENeg v => is_numeric v
   end.
 
-Lemma scalar_elem : forall t, scalar_ok parse_float true t = true ->
-  elem_simple (ast t) = true /\ format_array_elem (ast t) = canon t /\ format_tuple_elem (ast t) = canon t.
+Lemma scalar_elem : forall t, scalar_ok parse_float t = true ->
+  elem_simple (ast t) = true /\ format_array_elem int_to_float (ast t) = canon t /\
+  format_tuple_elem int_to_float (ast t) = canon t.
 Proof.
   intros t H. destruct t as [n|n|n|n|neg text|v|l|l]; cbn [scalar_ok] in H; try discriminate.
   - cbn [ast format_array_elem format_tuple_elem LiteralSpec.canon elem_simple]. rewrite parse_number_dec.
     pose proof (format_int_lval n) as Hf. split; [|split; exact Hf].
     unfold int_lval. destruct (n <? two63); [reflexivity|]. destruct (n <? two64); reflexivity.
-  - cbn [negb orb] in H. cbn [ast format_array_elem format_tuple_elem LiteralSpec.canon elem_simple].
-    rewrite parse_number_dec. destruct (nested_neg_int n H) as [Ha Ht].
+  - cbn [ast format_array_elem format_tuple_elem LiteralSpec.canon elem_simple].
+    rewrite parse_number_dec. destruct (nested_neg_int n) as [Ha Ht].
     split; [apply int_lval_numeric|]. split; [exact Ha|exact Ht].
   - cbn [ast format_array_elem format_tuple_elem LiteralSpec.canon elem_simple]. rewrite parse_number_hex.
     pose proof (format_int_lval n) as Hf. split; [|split; exact Hf].
@@ -822,8 +826,8 @@ Proof.
     rewrite format_string_canon. auto.
 Qed.
 
-Lemma scalar_is_scalar : forall nested t, scalar_ok parse_float nested t = true -> is_scalar t = true.
-Proof. intros nested t H. destruct t; cbn in *; try reflexivity; discriminate. Qed.
+Lemma scalar_is_scalar : forall t, scalar_ok parse_float t = true -> is_scalar t = true.
+Proof. intros t H. destruct t; cbn in *; try reflexivity; discriminate. Qed.
 
 (* consequences of elem_simple for the decision functions *)
 Lemma simple_facts : forall e, elem_simple e = true ->
@@ -837,7 +841,7 @@ Proof.
 Qed.
 
 (* ---- arrays ---- *)
-Definition aelem (x : cval) : bool := if is_carr x then arr_ok parse_float x else scalar_ok parse_float true x.
+Definition aelem (x : cval) : bool := if is_carr x then arr_ok parse_float x else scalar_ok parse_float x.
 
 Record arr_facts (x : cval) : Prop := {
   af_tup : is_tup (ast x) = false;
@@ -849,7 +853,7 @@ Record arr_facts (x : cval) : Prop := {
              | ELit (VArr inner) => Nat.eqb (length inner) 0 || existsb is_tup inner || existsb is_empty_arr inner
              | _ => false
              end) = false;
-  af_format : format_array_elem (ast x) = canon x
+  af_format : format_array_elem int_to_float (ast x) = canon x
 }.
 
 Lemma existsb_false : forall {A} (f : A -> bool) l, (forall x, In x l -> f x = false) -> existsb f l = false.
@@ -915,12 +919,12 @@ Proof.
 Qed.
 
 (* ---- tuples ---- *)
-Definition telem (x : cval) : bool := if is_ctup x then tup_ok parse_float x else scalar_ok parse_float true x.
+Definition telem (x : cval) : bool := if is_ctup x then tup_ok parse_float x else scalar_ok parse_float x.
 
 Record tup_facts (x : cval) : Prop := {
   tf_complex : tuple_elem_complex (ast x) = false;
   tf_prim : only_prim_e (ast x) = true;
-  tf_format : format_tuple_elem (ast x) = canon x
+  tf_format : format_tuple_elem int_to_float (ast x) = canon x
 }.
 
 Lemma forallb_true : forall {A} (f : A -> bool) l, (forall x, In x l -> f x = true) -> forallb f l = true.
@@ -1181,6 +1185,18 @@ Proof.
   cbn [lbind]. rewrite explain_ast_canon by exact H. reflexivity.
 Qed.
 
+(* a negated integer of ANY size, inside an array or a tuple, renders as at the top level:
+   UInt64_0 / Int64_-n (n <= 2^63) / Float64_ of the negated nearest float *)
+Theorem nested_negation_canon : forall n,
+  literal_of_tokens parse_float int_to_float (toks (CArr [CNeg n])) =
+    LOk (OLit (s_Array ++ canon_neg n ++ [93])) /\
+  literal_of_tokens parse_float int_to_float (toks (CTup [CNat 1; CNeg n])) =
+    LOk (OLit (s_Tuple ++ s_UInt64 ++ dec 1 ++ s_comma_sp ++ canon_neg n ++ [41])) /\
+  literal_of_tokens parse_float int_to_float (toks (CNeg n)) = LOk (OLit (canon_neg n)).
+Proof.
+  intros n. split; [|split]; rewrite literal_tokens_canon by reflexivity; reflexivity.
+Qed.
+
 End Oracle.
 
 (* ========================================================================================== *)
@@ -1213,7 +1229,7 @@ Proof.
   - destruct (n <? two64) eqn:Q3; [unfold two64, max_u64 in *; lia|reflexivity].
 Qed.
 
-Lemma lot_number : forall v, lot [(T_NUMBER, v)] = LOk (explain_literal (pn v)).
+Lemma lot_number : forall v, lot [(T_NUMBER, v)] = LOk (explain_literal int_to_float (pn v)).
 Proof. reflexivity. Qed.
 Lemma lot_minus_number : forall v,
   lot [(T_MINUS, [45]); (T_NUMBER, v)] = LOk (explain_negated parse_float int_to_float (pn v)).
@@ -1271,7 +1287,7 @@ Lemma parse_number_prefixed_small : forall v n, n < two64 ->
   (exists c1 s, v = 48 :: c1 :: s /\ (c1 = 120 \/ c1 = 98) /\
                 (c1 = 120 -> contains_any v [112; 80] = false /\ contains_byte v 46 = false)) ->
   parse_int v 0 = int_result n -> parse_uint v 0 = uint_result n ->
-  explain_literal (pn v) = OLit (t_UInt64 ++ dec n).
+  explain_literal int_to_float (pn v) = OLit (t_UInt64 ++ dec n).
 Proof.
   intros v n Hn (c1 & s & -> & Hc & Hx) Hi Hu. unfold parse_number.
   rewrite !has_prefix_cons2.
@@ -1321,19 +1337,19 @@ Definition w_int_to_float (n : N) : fval :=
   else FNaN.
 Definition w_parse_float (s : list N) : option fval := None.
 
-(* the statement "for every n, -n inside an array or a tuple renders like -n at the top level" is false:
-   witness n = 2^64 - 1.  Top level: Float64_-18446744073709552000; in an array: Int64_-18446744073709551615 (not an
-   Int64); in a tuple: Int64_1 (wrapped around). *)
+(* -n inside an array or a tuple renders like -n at the top level, also beyond the Int64 range (this was a finding
+   on the first version of the code: Int64_-18446744073709551615 in arrays, Int64_1 in tuples; fixed in /repo by
+   "a negated integer beyond the Int64 range inside an array or tuple literal is a Float64"); the general statement
+   is nested_negation_canon above, this is its instance n = 2^64 - 1 computed on the model *)
 Definition w_n : N := 18446744073709551615.
-Lemma nested_neg_refuted :
-  literal_of_tokens w_parse_float w_int_to_float (toks (CNeg w_n))
-    = LOk (OLit (s_Float64 ++ [45; 49; 56; 52; 52; 54; 55; 52; 52; 48; 55; 51; 55; 48; 57; 53; 53; 50; 48; 48; 48]))
+Definition w_neg_text : list N :=          (* Float64_-18446744073709552000 *)
+  s_Float64 ++ [45; 49; 56; 52; 52; 54; 55; 52; 52; 48; 55; 51; 55; 48; 57; 53; 53; 50; 48; 48; 48].
+Lemma nested_neg_example :
+  literal_of_tokens w_parse_float w_int_to_float (toks (CNeg w_n)) = LOk (OLit w_neg_text)
   /\ literal_of_tokens w_parse_float w_int_to_float (toks (CArr [CNeg w_n]))
-    = LOk (OLit (s_Array ++ s_Int64 ++ [45] ++ dec w_n ++ [93]))
+    = LOk (OLit (s_Array ++ w_neg_text ++ [93]))
   /\ literal_of_tokens w_parse_float w_int_to_float (toks (CTup [CNat 1; CNeg w_n]))
-    = LOk (OLit (s_Tuple ++ s_UInt64 ++ [49; 44; 32] ++ s_Int64 ++ [49; 41]))
-  /\ canon w_parse_float w_int_to_float (CArr [CNeg w_n])
-    = s_Array ++ s_Float64 ++ [45; 49; 56; 52; 52; 54; 55; 52; 52; 48; 55; 51; 55; 48; 57; 53; 53; 50; 48; 48; 48; 93].
+    = LOk (OLit (s_Tuple ++ s_UInt64 ++ [49; 44; 32] ++ w_neg_text ++ [41])).
 Proof. vm_compute. repeat split; reflexivity. Qed.
 
 (* a binary literal >= 2^64 is printed as a STRING literal (strconv.ParseFloat rejects the text; hex literals of
